@@ -519,7 +519,8 @@ class RawFileSystem(FileSystem[str]):
 
     def _resolve_path(self, path: str) -> str:
         """Get the absolute path."""
-        abs_path = os.path.abspath(os.path.join(self.path, path))
+        # Both slashes are separators for us, but not for the OS if this isn't Windows.
+        abs_path = os.path.abspath(os.path.join(self.path, path.replace('\\', '/')))
         # Compare whole components, so a sibling like "root2" is not treated as inside "root".
         if self.constrain_path and not os.path.join(abs_path, '').startswith(os.path.join(self.path, '')):
             raise RootEscapeError(self.path, path)
